@@ -36,7 +36,11 @@ def run_one(mu, baseline):
             out.append("  baseline: %s" % ("pass" if ok else "FAIL"))
         for prop in mu["props"]:
             env2 = dict(os.environ, VERIF_REPO=repo, VERIF_REPLAY_DIR=os.path.join(scratch, "replays"), VERIF_EVIDENCE_DIR=os.path.join(scratch, "evidence"))
-            r = subprocess.run(["/verif/check", prop, "quick"], env=env2, stdout=subprocess.PIPE, stderr=subprocess.STDOUT, text=True)
+            try:
+                r = subprocess.run(["/verif/check", prop, "quick"], env=env2, stdout=subprocess.PIPE, stderr=subprocess.STDOUT, text=True, timeout=600)
+            except subprocess.TimeoutExpired:
+                out.insert(0, "MUTANT %-32s %s: CHECK-HUNG (>600s)" % (mu["name"], prop))
+                continue
             det = r.returncode == 1 and "VIOLATION property=" in r.stdout
             out.insert(0, "MUTANT %-32s %s: %s" % (mu["name"], prop, "DETECTED" if det else "MISSED (rc=%d)" % r.returncode))
             if not det:
